@@ -208,6 +208,71 @@ class SymStr:
     def __sstr__(self):
         return self
 
+    def ljust(self, w, fill=' '):
+        return SymStr(self.cells + [fill] * max(0, w - len(self.cells)), self.kind)
+
+    def rjust(self, w, fill=' '):
+        return SymStr([fill] * max(0, w - len(self.cells)) + self.cells, self.kind)
+
+    def zfill(self, w):
+        return self.rjust(w, '0')
+
+    def lower(self):
+        return SymStr([c.lower() if isinstance(c, str) else c for c in self.cells], self.kind)
+
+    def find(self, sub, start=0):
+        sub = SymStr.of(sub, self.kind)
+        n, m = len(self.cells), len(sub.cells)
+        for i in range(start, n - m + 1):
+            if s_and(*[cell_eq(self.cells[i + j], sub.cells[j]) for j in range(m)]):     # forks on content
+                return i
+        return -1
+
+    def __contains__(self, sub):
+        return self.find(sub) >= 0
+
+    def count(self, sub):
+        sub = SymStr.of(sub, self.kind)
+        c, i, m = 0, 0, len(sub.cells)
+        if m == 0:
+            return len(self.cells) + 1
+        while True:
+            j = self.find(sub, i)
+            if j < 0:
+                return c
+            c += 1
+            i = j + m
+
+    def replace(self, old, new, count=-1):
+        """str.replace on symbolic characters: scans from the left, forking on whether `old` matches at each position"""
+        old = SymStr.of(old, self.kind)
+        new = SymStr.of(new, self.kind)
+        m = len(old.cells)
+        if m == 0:
+            raise Unsupported('replace of the empty string')
+        out = []
+        i = 0
+        n = len(self.cells)
+        done = 0
+        while i < n:
+            if i + m <= n and (count < 0 or done < count) and \
+                    s_and(*[cell_eq(self.cells[i + j], old.cells[j]) for j in range(m)]):
+                out.extend(new.cells)
+                i += m
+                done += 1
+            else:
+                out.append(self.cells[i])
+                i += 1
+        return SymStr(out, self.kind)
+
+    def strip(self, chars=None):
+        if any(not isinstance(c, str) for c in self.cells[:1] + self.cells[-1:]):
+            raise Unsupported('strip on symbolic characters')
+        c = self.concrete() if all(isinstance(x, str) for x in self.cells) else None
+        if c is not None:
+            return SymStr.of(c.strip(chars), self.kind)
+        raise Unsupported('strip on symbolic characters')
+
     # -- format(value, spec): fill/align only
     def __sformat__(self, spec):
         if spec == '':
@@ -337,6 +402,17 @@ class HexInt:
         return HexInt([z3.simplify(x ^ y) for x, y in zip(a, b)])
     __rxor__ = __xor__
 
+    def bit_length(self):
+        """number of significant bits (forks over the position of the leading one; exact)"""
+        sig = self.significant()
+        top = self.nibs[len(self.nibs) - sig]
+        if mk_bool(top == 0):
+            return 0 if sig == 1 else 4 * (sig - 1)
+        for b in (4, 3, 2):
+            if mk_bool(z3.UGE(top, 1 << (b - 1))):
+                return 4 * (sig - 1) + b
+        return 4 * (sig - 1) + 1
+
     def small(self):
         """python int value of a short hex integer, by enumerating the feasible values (forks; exact)"""
         if len(self.nibs) > 2:
@@ -411,6 +487,8 @@ class HexInt:
     def to_bytes(self, length, byteorder='big', **kw):
         if byteorder != 'big':
             raise Unsupported('little endian')
+        if isinstance(length, SInt):
+            length = core.cur().concretize(length, limit=64)
         if len(self.nibs) <= 2 * length:
             nibs = self.nibs
         else:
